@@ -165,6 +165,10 @@ InC03(r) == \/ \E d \in Durations, a \in AuthShapes, p \in UserPaths, loc \in Du
                          "self", "plain")
             \/ \E d \in {Dur("absent", FALSE, TRUE, 0), Dur("100h", TRUE, TRUE, 360000)} :
                  r = Req("refresh", Svc, Key("p256", "ecdsa", 256, 0, TRUE), d, [cred |-> "ipcert_long", age |-> 0], "self", "plain")
+            \* a session almost a day old whose request body takes a few seconds to arrive (the service port waits up to five):
+            \* the certificate starts when it is made, and still ends a day after the authentication
+            \/ \E p \in UserPaths :
+                 r = Req(p, Alice, Key("p256", "ecdsa", 256, 0, TRUE), D1h, [cred |-> "cookie_cli_week_slowbody", age |-> Day - 3], "self", "plain")
             \* the cloud caller's own clock (the X-Amz-Date of the request it pre-signed) is ahead of / behind the daemon's, as
             \* far as STS tolerates: validity counts from the daemon's "now"
             \/ \E d \in {Dur("absent", FALSE, TRUE, 0)}, c \in {"aws_ahead", "aws_behind"} :
